@@ -45,6 +45,13 @@ def _maybeAttribute(cls: model.Class, name: str) -> bool:
     return obj is None or isinstance(obj, model.Attribute)
 
 
+def _parents(ob: model.Documentable) -> Iterator[model.Documentable]:
+    """Iterate over the ancestors of an object."""
+    parent = ob.parent
+    while parent is not None:
+        yield parent
+        parent = parent.parent
+
 def _handleAliasing(
         ctx: model.CanContainImportsDocumentable,
         target: str,
@@ -397,6 +404,10 @@ class ModuleVistor(NodeVisitor):
             ob = origin_module.contents.get(origin_name) or origin_module.resolveName(origin_name)
             if ob is None:
                 current.report("cannot resolve re-exported name :"
+                                        f'{modname}.{origin_name}', thresh=1)
+            elif ob is current or ob in _parents(current):
+                # An object can't be moved into itself or into one of its own members.
+                current.report("cannot re-export the enclosing object :"
                                         f'{modname}.{origin_name}', thresh=1)
             else:
                 if origin_module.all is None or origin_name not in origin_module.all:
